@@ -367,14 +367,19 @@ def snip_offsets(unit, L, probes):
         def call(nm, vals, n):
             r = libc((nm or "").split("::")[-1], vals, n)
             if r is NotImplemented:
+                fs = [f_ for f_ in unit.functions.get(nm, []) if unit.body(f_) is not None]
+                if len(fs) == 1:
+                    return holder["ev"].call_function(unit, fs[0], vals)      # an inline helper of the sugar header
                 raise FD.Unknown("call to %s" % nm, n)
             return r
+        holder = {}
 
         def hook(n, ev):
             if n.get("kind") == "StringLiteral":
                 return mem.literal(A.string_literal(n))
             return NotImplemented
         ev = FD.Eval(env={msgp["id"]: base}, deref=lambda a, n: mem.byte(a, n), call=call, node_hook=hook, max_steps=600)
+        holder["ev"] = ev
         for st in chosen:
             ev.run(st)
         out[text] = ev.env[msgp["id"]] - base
